@@ -1331,6 +1331,15 @@ class MyPyAstVisitor:
 
         parent = self.__declaration_stack[-1]
 
+        if (
+            isinstance(parent, Function)
+            and parent.name == "__init__"
+            and len(self.__declaration_stack) > 1
+            and isinstance(self.__declaration_stack[-2], Class)
+        ):
+            # Attributes that are assigned in the constructor belong to the class, like the attributes of the class body
+            parent = self.__declaration_stack[-2]
+
         if isinstance(parent, Enum):
             # Functions of enums are not part of the stubs and enums have no publicity information
             return not is_internal(name)
